@@ -82,11 +82,14 @@ def pySliceTo (s : Str) (i : Int) : Str :=
 
 variable (E : Env)
 
-/-- `does_not_contain_any_alpha_characters` (after commit da18b98): `startswith(('"', "'"))` -/
+/-- `does_not_contain_any_alpha_characters` (after commit da18b98 and the extended-identifier repair):
+    `startswith(('"', "'", "\\"))` — string literals, character literals and extended identifiers
+    (`\Clk_In\`, case-sensitive) are no business of a case rule -/
 def doesNotContainAnyAlpha (v : Str) : Bool :=
   match v with
   | '"' :: _ => true
   | '\'' :: _ => true
+  | '\\' :: _ => true
   | _ => false
 
 def prefixDetected (s : Str) (ps : List Str) : Bool :=
@@ -299,17 +302,22 @@ def fixV (value : Except PyErr (Option Str)) (l : List Tok) : Except PyErr (List
   | some e => pySet l 0 { t with val := e }
   | none => .error (.unmodelled "set_value(None)")
 
-/-- `consistent_case_utils.create_tois`, inner loop: the first declared identifier that equals
-    the name up to `lower()`; a token of interest is created iff it differs from the name -/
+/-- `consistent_case_utils.create_tois`, inner loop: a name that starts with a quote or a backslash
+    is skipped (`break` before the comparison — the extended-identifier repair); otherwise the first
+    declared identifier that equals the name up to `lower()`; a token of interest is created iff it
+    differs from the name -/
 def expectedFirst (ids : List Str) (v : Str) : Option Str :=
+  if doesNotContainAnyAlpha v then none else
   match ids.find? (fun i => E.lowerS i == E.lowerS v) with
   | some i => if i == v then none else some i
   | none => none
 
-/-- `interface_case_mismatch` + `dInterfaceMap[sToken.lower()]` (the dict keeps the LAST name
+/-- `interface_case_mismatch` (a token that starts with a quote or a backslash is never a mismatch —
+    the extended-identifier repair) + `dInterfaceMap[sToken.lower()]` (the dict keeps the LAST name
     of each lower-case spelling) -/
 def expectedMap (ids : List Str) (v : Str) : Except PyErr (Option Str) :=
-  if (ids.map E.lowerS).contains (E.lowerS v) && !ids.contains v then
+  if doesNotContainAnyAlpha v then .ok none
+  else if (ids.map E.lowerS).contains (E.lowerS v) && !ids.contains v then
     match ids.reverse.find? (fun i => E.lowerS i == E.lowerS v) with
     | some i => .ok (some i)
     | none => .error (.keyError "dInterfaceMap")
